@@ -48,7 +48,7 @@ Definition key_result (cf : config) (env : kenv) (url kid : string) : err + jwk 
 (** every entry was fetched from its own url, for its own kid, in some past world; and, as long as the cached
     key is not re-validated (no fix for C05-F4), it passed the certificate check under the settings [v] *)
 Definition cache_inv (f4 v : bool) (past : list kenv) (c : kcache) : Prop :=
-  forall url kid k, cache_find c url kid = Some k ->
+  forall url kid ttl k, cache_find c url kid ttl = Some k ->
     exists env ks, In env past /\ fetch env url = inr ks /\
       filter (fun k' => String.eqb (k_kid k') kid) ks = [k] /\
       (f4 = false -> (negb v || negb (cert_bad (k_cert k))) = true).
@@ -56,7 +56,7 @@ Definition cache_inv (f4 v : bool) (past : list kenv) (c : kcache) : Prop :=
 Lemma cache_inv_mono f4 v past past' c :
   (forall e, In e past -> In e past') -> cache_inv f4 v past c -> cache_inv f4 v past' c.
 Proof.
-  intros Hsub H url kid k Hf. destruct (H url kid k Hf) as (env & ks & Hin & R). exists env, ks. split; [auto|exact R].
+  intros Hsub H url kid ttl k Hf. destruct (H url kid ttl k Hf) as (env & ks & Hin & R). exists env, ks. split; [auto|exact R].
 Qed.
 
 Lemma get_key_some cf ks kid k :
@@ -79,13 +79,14 @@ Proof.
   destruct (get_key (s_cf s) ks kid) as [k|] eqn:Hg; [|split; [exact Hinv|reflexivity]].
   split; [|reflexivity].
   destruct (s_cache_on s); [|exact Hinv].
-  intros url' kid' k' Hf'. simpl in Hf'.
-  destruct (String.eqb url url' && String.eqb kid kid') eqn:E.
-  - injection Hf' as <-. apply andb_true_iff in E as [E1 E2]. apply String.eqb_eq in E1, E2. subst url' kid'.
+  intros url' kid' ttl' k' Hf'. simpl in Hf'.
+  destruct (String.eqb url url' && String.eqb kid kid' && (s_ttl s =? ttl')%Z) eqn:E.
+  - injection Hf' as <-. apply andb_true_iff in E as [E _]. apply andb_true_iff in E as [E1 E2].
+    apply String.eqb_eq in E1, E2. subst url' kid'.
     apply get_key_some in Hg as [Hfil Hval]. exists (s_env s), ks.
     split; [left; reflexivity|]. split; [exact Hf|]. split; [exact Hfil|].
     intro F. unfold key_valid in Hval. rewrite (Hv F) in Hval. exact Hval.
-  - apply Hinv. exact Hf'.
+  - apply (Hinv _ _ _ _ Hf').
 Qed.
 
 (** getKey with the cache: the invariant is kept, and the answer is the cache-less answer in a world of the
@@ -103,10 +104,10 @@ Proof.
   pose proof (fetch_fill_ok f4 v s url kid c past Hv Hinv') as FF.
   unfold get_key_c.
   destruct (s_cache_on s) eqn:Hon.
-  - destruct (cache_find c url kid) as [k|] eqn:Hfind.
+  - destruct (cache_find c url kid (s_ttl s)) as [k|] eqn:Hfind.
     + destruct (negb f4 || key_valid (s_cf s) k) eqn:Hok.
       * split; [exact Hinv'|].
-        destruct (Hinv _ _ _ Hfind) as (env & ks & Hin & Hfetch & Hfil & Hval).
+        destruct (Hinv _ _ _ _ Hfind) as (env & ks & Hin & Hfetch & Hfil & Hval).
         exists env. split; [right; exact Hin|]. split; [discriminate|].
         unfold key_result. rewrite Hfetch.
         assert (get_key (s_cf s) ks kid = Some k) as ->; [|reflexivity].
@@ -263,7 +264,7 @@ Theorem history_stateless_gen f1 f2 f4 v h pre s post r :
   judged_statelessly f1 f2 pre s r.
 Proof.
   intros Hv E Hr. unfold run_history in Hr.
-  assert (cache_inv f4 v [] []) as Hinv by (intros url kid k H; discriminate).
+  assert (cache_inv f4 v [] []) as Hinv by (intros url kid ttl k H; discriminate).
   destruct (run_c_stateless f1 f2 f4 v h [] [] Hv Hinv pre s post E r Hr) as (env & [Hin|[]] & Hfr & Hx).
   exists env. split; [exact Hin|]. split; assumption.
 Qed.
@@ -433,14 +434,14 @@ Definition exc_tok (iss kid : string) (mat : N) : cred :=
                            c_fields := [("iss", iss); ("sub", "alice")] |};
             t_sig := [mat] |}.
 Definition exc_step (on : bool) (env : kenv) (cr : cred) : kstep :=
-  {| s_cf := exc_cf; s_cache_on := on; s_templated := true; s_env := env; s_now := secs 1790000000; s_cred := cr |}.
+  {| s_cf := exc_cf; s_cache_on := on; s_ttl := -1; s_templated := true; s_env := env; s_now := secs 1790000000; s_cred := cr |}.
 Close Scope string_scope.
 
 (** two tenants publish different keys under the same kid behind one templated endpoint: after tenant-a's key
     has been cached, a token naming tenant-b but signed with tenant-a's key is still rejected, and tenant-b's
     own tokens are still accepted (the seeded change C05-1 got both wrong) *)
 Example cache_cross_tenant :
-  run_history true true false
+  run_history true true true
     [exc_step true (exc_env 3 4) (exc_tok "tenant-a" "k1" 3);
      exc_step true (exc_env 3 4) (exc_tok "tenant-b" "k1" 3);
      exc_step true (exc_env 3 4) (exc_tok "tenant-b" "k1" 4)]
@@ -450,7 +451,7 @@ Proof. vm_compute. reflexivity. Qed.
 (** what the cache does change: after a rotation the cached key stays in use for its own url and kid (the old
     key's tokens pass, the new key's do not yet) unless the token has no kid or the cache is off *)
 Example cache_rotation :
-  run_history true true false
+  run_history true true true
     [exc_step true (exc_env 3 4) (exc_tok "tenant-a" "k1" 3);
      exc_step true (exc_env 4 4) (exc_tok "tenant-a" "k1" 3);
      exc_step true (exc_env 4 4) (exc_tok "tenant-a" "k1" 4);
@@ -468,7 +469,7 @@ Definition exc_bad_env : kenv :=
 Definition exc_who (strict : bool) : kstep :=
   {| s_cf := {| cf_proto := cf_proto exc_cf; cf_rule := None; cf_md_issuer := ""; cf_validate_jwk := strict;
                 cf_id_from := "sub"; cf_remote := RUp |};
-     s_cache_on := true; s_templated := true; s_env := exc_bad_env; s_now := secs 1790000000;
+     s_cache_on := true; s_ttl := -1; s_templated := true; s_env := exc_bad_env; s_now := secs 1790000000;
      s_cred := exc_tok "tenant-a" "k1" 3 |}.
 
 Theorem F4_refuted :
